@@ -1,0 +1,15 @@
+//go:build verif
+
+// Contracts for package http, checked by /verif/govc (comment-only; not part of any normal build).
+
+package http
+
+//@ func matchesPath
+//@   prop C04
+//@   pure
+
+// The skipper of the token middleware: it may skip authentication only for requests the router does
+// not dispatch under `path`. echo dispatches on echo.GetPath(request) (RawPath if set, else Path).
+//@ func (Engine).applyAuthMiddleware$1
+//@   prop C04
+//@   ensures [auth-not-skipped-under-path] matchesPath(echo.GetPath(c.Request()), path) ==> result == false
